@@ -280,7 +280,7 @@ Section leaves2.
   Hint Resolve p_new_order p_renew_order p_order_terminate p_refund_order p_set_data_expire p_remove_data_expire : presdb.
   Lemma p_new_meta cx o d m s : presAt R (new_meta cx o d m) s.
   Proof. unfold new_meta. psolve. Qed.
-  Lemma p_reset_meta_duration d m s : presAt R (reset_meta_duration d m) s.
+  Lemma p_reset_meta_duration cx d m s : presAt R (reset_meta_duration cx d m) s.
   Proof. unfold reset_meta_duration. psolve. Qed.
   Lemma p_extend_meta_duration d e s : presAt R (extend_meta_duration d e) s.
   Proof. unfold extend_meta_duration. psolve. Qed.
@@ -291,10 +291,10 @@ Section leaves2.
   Hint Resolve p_new_meta p_reset_meta_duration p_extend_meta_duration p_delete_meta p_remove_shards : presdb.
   Lemma p_update_meta_status_commit cx oid o s : presAt R (update_meta_status_commit cx oid o) s.
   Proof. unfold update_meta_status_commit. psolve. Qed.
-  Lemma p_rollback_meta d s : presAt R (rollback_meta d) s.
+  Lemma p_rollback_meta cx d s : presAt R (rollback_meta cx d) s.
   Proof. unfold rollback_meta. psolve. Qed.
   Hint Resolve p_update_meta_status_commit p_rollback_meta : presdb.
-  Lemma p_cancel_order oid s : presAt R (cancel_order oid) s.
+  Lemma p_cancel_order cx oid s : presAt R (cancel_order cx oid) s.
   Proof. unfold cancel_order. psolve. Qed.
   Lemma p_update_permission o d ro rw s : presAt R (update_permission o d ro rw) s.
   Proof. unfold update_permission. psolve. Qed.
